@@ -11,13 +11,18 @@
      nop                                 Command Complete for opcode 0 (credit only)            -> CtrlCredit
      dlv(ty, op)                         the delay line hands a packet to the host              -> HostRecv
      ret(t, out, rop, k)                 the caller's await returns (reply opcode rop, kind k)  -> Return(t)
+     ret(t, out = exc.., hf = TRUE)      the call ends with an exception because handing the command over failed
+                                         (the driver saw no packet cross for this call and knows why: the command
+                                         object cannot be serialised, or the sink raised)        -> SendFail(t)
      quiesce(pend)                       the event loop has nothing left to do (virtual time is past every time-out)
 
    The controller-side actions are those of Command.tla, i.e. what the property allows, not what
    bumble's controller implements: a command that is never answered leaves `cur` set (or a caller
    in "waitrsp") at `quiesce`, a second reply or a reply with a foreign opcode finds CtrlReply
    disabled, a second command before the reply finds Send disabled (semaphore), an accepted
-   procedure without completion event leaves its key in ctrlProc at `quiesce`.
+   procedure without completion event leaves its key in ctrlProc at `quiesce`; a host that keeps
+   the command slot after a failed hand-over leaves the later callers in "waitsem" at `quiesce`.
+   Any other exception out of a call (hf = FALSE) has no action.
    A batch file holds many traces; tid picks one.                                              *)
 EXTENDS Command, Json, IOUtils, TLCExt
 
@@ -48,6 +53,7 @@ Act == \/ Ev.e = "call" /\ Call(Ev.t, Ev.op)
           \* rop = 0: the entry point used does not hand the reply event to its caller
           /\ (Ev.rop # 0) => /\ got[Ev.t].op = Ev.rop /\ got[Ev.t].k = Ev.k   \* handed over = delivered
                               /\ Ev.rop = op[Ev.t]                            \* and carries the caller's own opcode
+       \/ Ev.e = "ret" /\ Ev.out # "ok" /\ Ev.hf /\ SendFail(Ev.t)
        \/ Ev.e = "quiesce" /\ Quiet /\ Ev.pend = <<>> /\ UNCHANGED vars
 
 Step == /\ rest # <<>>
